@@ -17,14 +17,16 @@
 use rosu_pp::{
     catch::{verif as cverif, Catch},
     mania::{verif as mverif, Mania},
+    taiko::{verif as tverif, Taiko},
+    verif::mods_snapshot,
     Beatmap,
 };
 
 use crate::{
     common::{decode, guarded, random_settings, resource_maps, truncate_objects, LazerTag, ModsSpec, Run, Settings},
-    mapgen::{random_map, random_slider, GenCfg, MapSpec, ObjKind, ObjSpec},
+    mapgen::{random_map, random_slider, GenCfg, MapSpec, ObjKind, ObjSpec, TimingSpec},
     rng::Rng,
-    svops::{hex, hex_list},
+    svops::{self, hex, hex_list},
 };
 
 fn show_z(f: f64) -> String {
@@ -249,6 +251,239 @@ fn check_catch(run: &mut Run, id: &str, map: &Beatmap, settings: &Settings, pass
     run.count("cskill:lines");
 }
 
+fn opt_f(x: Option<f64>) -> String {
+    x.map_or("-".to_owned(), |v| hex(v.to_bits()))
+}
+
+fn opt_n(x: Option<usize>) -> String {
+    x.map_or("-".to_owned(), |v| v.to_string())
+}
+
+/// One taiko case.
+fn check_taiko(run: &mut Run, id: &str, map: &Beatmap, settings: &Settings, passed: Option<usize>, repro: &str) {
+    let mut d = settings.build(1);
+    if let Some(n) = passed {
+        d = d.passed_objects(n as u32);
+    }
+    let trace = match guarded(|| tverif::skill_trace(&d, map)) {
+        Ok(Ok(t)) => t,
+        Ok(Err(_)) => {
+            run.count("skipped:not-convertible");
+            return;
+        }
+        Err(e) => {
+            run.fail("oracle:skill-trace-panic", "", id, e, repro.to_owned());
+            return;
+        }
+    };
+    let (strains, attrs) = match (guarded(|| d.strains_for_mode::<Taiko>(map)), guarded(|| d.calculate_for_mode::<Taiko>(map))) {
+        (Ok(Ok(s)), Ok(Ok(a))) => (s, a),
+        _ => {
+            run.fail("oracle:skill-public-api-failed", "", id, "strains()/calculate() failed although the hook succeeded".to_owned(), repro.to_owned());
+            return;
+        }
+    };
+    let n = trace.n_processed.min(trace.records.len());
+    run.count(match n {
+        0 => "tskill:objects:0",
+        1 => "tskill:objects:1",
+        2..=10 => "tskill:objects:2-10",
+        11..=100 => "tskill:objects:11-100",
+        _ => "tskill:objects:100+",
+    });
+    let recs = &trace.records[..n];
+    if recs.iter().any(|r| !r.is_hit) {
+        run.count("tskill:has-nonhit");
+    }
+    if recs.iter().any(|r| r.delta_time == 0.0) {
+        run.count("tskill:equal-start-times");
+    }
+    if recs.iter().any(|r| r.mono_index >= 5) {
+        run.count("tskill:mono-run-6+");
+    }
+    if recs.iter().any(|r| r.rep_first.is_some_and(|i| i <= 16)) {
+        run.count("tskill:repeating-pattern-found");
+    }
+    if recs.iter().any(|r| r.rhythm_first.as_ref().is_some_and(|g| g.interval_chain.len() >= 3)) {
+        run.count("tskill:rhythm-chain-3+");
+    }
+    if recs.iter().any(|r| r.rhythm_first.as_ref().is_some_and(|g| !g.interval_ratio.is_normal())) {
+        run.count("tskill:abnormal-interval-ratio");
+    }
+    if recs.iter().any(|r| r.pattern_first_ratio.is_some_and(|x| !x.is_normal())) {
+        run.count("tskill:abnormal-pattern-ratio");
+    }
+    if recs.windows(2).any(|w| w[0].effective_bpm != w[1].effective_bpm) {
+        run.count("tskill:effective-bpm-changes");
+    }
+    if trace.color.iter().any(|x| *x < 0.0) {
+        run.count("tskill:negative-color-object-strain");
+    }
+    // strain_value_of < 0  <=>  the object strain falls below the decayed previous one
+    let negative_eval = (1..trace.color.len().min(n)).any(|i| {
+        trace.color[i] < trace.color[i - 1] * 0.8f64.powf(trace.records[i].delta_time / 1000.0) - 1e-6
+    });
+    if negative_eval {
+        run.count("tskill:negative-color-evaluator-output");
+    } else if id == "tk-negative-color-witness" {
+        run.fail("oracle:color-negative-witness-not-reproduced", "", id, "the map of C16d.color_eval_nonneg_fails no longer yields a negative colour object strain".to_owned(), repro.to_owned());
+    }
+    if trace.single_color_stamina.iter().zip(trace.stamina.iter()).any(|(m, s)| m > s) {
+        run.fail("oracle:taiko-mono-strain-exceeds-stamina", "", id, "single-colour object strain above the stamina object strain".to_owned(), repro.to_owned());
+    }
+    // colour may legitimately be negative (consistent ratio 3); every other value must be finite >= 0
+    for (what, v) in [("rhythm", &trace.rhythm), ("reading", &trace.reading), ("stamina", &trace.stamina), ("single_color_stamina", &trace.single_color_stamina)] {
+        check_values(run, id, what, v, repro);
+    }
+    if let Some((i, x)) = trace.color.iter().enumerate().find(|(_, x)| !x.is_finite()) {
+        run.fail("oracle:skill-value-not-finite-nonnegative", "", id, format!("color[{i}] = {x}"), repro.to_owned());
+    }
+    for (what, v) in [("rhythm", &strains.rhythm), ("reading", &strains.reading), ("color", &strains.color), ("stamina", &strains.stamina), ("single_color_stamina", &strains.single_color_stamina)] {
+        check_values(run, id, what, v, repro);
+    }
+    let recs_s: Vec<String> = trace
+        .records
+        .iter()
+        .map(|r| {
+            let mf = match r.mono_first {
+                None => "-:-:-".to_owned(),
+                Some((m, None)) => format!("{m}:-:-"),
+                Some((m, Some((a, rep)))) => format!("{m}:{a}:{}", opt_n(rep)),
+            };
+            let af = match r.alt_first {
+                None => "-:-".to_owned(),
+                Some((a, rep)) => format!("{a}:{}", opt_n(rep)),
+            };
+            let rh = match &r.rhythm_first {
+                None => "-".to_owned(),
+                Some(g) => {
+                    let chain: Vec<String> = g.interval_chain.iter().map(|x| x.map_or("n".to_owned(), |v| hex(v.to_bits()))).collect();
+                    format!("{}:{}:{}:{}", hex(g.interval_ratio.to_bits()), g.len, opt_f(g.duration), if chain.is_empty() { "e".to_owned() } else { chain.join("/") })
+                }
+            };
+            format!(
+                "{},{},{},{},{},{},{},{},{},{},{},{},{mf},{af},{},{rh},{}",
+                hex(r.start_time.to_bits()),
+                hex(r.delta_time.to_bits()),
+                u8::from(r.is_hit),
+                hex(r.effective_bpm.to_bits()),
+                hex(r.ratio.to_bits()),
+                opt_f(r.prev_start),
+                opt_f(r.prev2_start),
+                r.mono_index,
+                opt_f(r.prev_mono_start_2),
+                opt_f(r.prev_mono_start_8),
+                opt_f(r.prev_color_change_start),
+                opt_f(r.next_color_change_start),
+                opt_n(r.rep_first),
+                opt_f(r.pattern_first_ratio),
+            )
+        })
+        .collect();
+    let snap = mods_snapshot(&settings.mods.build(1));
+    let rx = snap.flags[5];
+    let flags: String = [rx, trace.is_convert].iter().map(|b| if *b { '1' } else { '0' }).collect();
+    let req = format!(
+        "TSKILL {} {} {flags} {} {}",
+        hex(svops::sum_identity().to_bits()),
+        hex(trace.great_hit_window.to_bits()),
+        trace.n_processed,
+        if recs_s.is_empty() { "-".to_owned() } else { recs_s.join(";") }
+    );
+    let resp = format!(
+        "R{} D{} C{} T{} M{} PR{} PD{} PC{} PT{} PM{} R{} D{} C{} T{} M{} S{}",
+        bits_list(&trace.rhythm),
+        bits_list(&trace.reading),
+        bits_list(&trace.color),
+        bits_list(&trace.stamina),
+        bits_list(&trace.single_color_stamina),
+        bits_list(&strains.rhythm),
+        bits_list(&strains.reading),
+        bits_list(&strains.color),
+        bits_list(&strains.stamina),
+        bits_list(&strains.single_color_stamina),
+        show_z(attrs.rhythm),
+        show_z(attrs.reading),
+        show_z(attrs.color),
+        show_z(attrs.stamina),
+        show_z(attrs.mono_stamina_factor),
+        show_z(attrs.stars)
+    );
+    run.line(id, req, resp);
+    run.count("tskill:lines");
+}
+
+/// A taiko map from a colour pattern (bit i of `pattern` = rim) and a timing style.
+fn taiko_pattern_map(pattern: u32, len: u32, timing: u32) -> MapSpec {
+    let mut m = MapSpec { mode: 1, ..Default::default() };
+    let mut t = 1000.0;
+    for i in 0..len {
+        let rim = pattern >> i & 1 == 1;
+        m.objects.push(ObjSpec { x: 256, y: 192, time: t, sound: if rim { 8 } else { 0 }, kind: ObjKind::Circle });
+        t += match timing {
+            0 => 125.0,                                         // 1/4 at 120 bpm
+            1 => if i % 2 == 0 { 125.0 } else { 250.0 },        // swing
+            2 => [62.5, 62.5, 125.0, 250.0, 83.0][i as usize % 5], // mixed 1/8, 1/4, 1/2, 1/6
+            _ => if i == 3 { 0.0 } else { 100.0 },              // two notes at the same time
+        };
+    }
+    m
+}
+
+/// A random taiko map: streams at 1/4-1/8, mono runs, rhythm changes, SV changes, drum rolls,
+/// swells, huge gaps, equal times.
+fn taiko_map(rng: &mut Rng, n: usize) -> MapSpec {
+    let mut m = MapSpec { mode: 1, ..Default::default() };
+    m.od = *rng.pick(&[0.0, 3.0, 5.0, 7.5, 10.0]);
+    m.slider_multiplier = *rng.pick(&[1.0, 1.4, 2.0, 3.2]);
+    let beat = *rng.pick(&[250.0, 300.0, 333.33, 400.0, 500.0, 600.0]);
+    m.timing[0].beat_len = beat;
+    for k in 0..rng.below(4) {
+        m.timing.push(TimingSpec {
+            time: 1500.0 + 2500.0 * k as f64 + rng.range(0, 800) as f64,
+            beat_len: -(*rng.pick(&[25.0, 50.0, 66.67, 100.0, 133.33, 200.0, 400.0])),
+            uninherited: false,
+            kiai: false,
+        });
+    }
+    if rng.chance(1, 4) {
+        m.timing.push(TimingSpec { time: rng.range(3000, 8000) as f64, beat_len: *rng.pick(&[200.0, 375.0, 750.0, 30.0, 6000.0]), uninherited: true, kiai: false });
+    }
+    let mut t = rng.range(-300, 1500) as f64;
+    let mut rim = rng.chance(1, 2);
+    let mut run_left = 0;
+    let mut div = *rng.pick(&[1.0, 2.0, 4.0, 8.0]);
+    let frac = rng.chance(1, 5);
+    for _ in 0..n {
+        if run_left == 0 {
+            rim = !rim;
+            run_left = *rng.pick(&[1, 1, 1, 2, 2, 3, 4, 7, 12]);
+            if rng.chance(1, 3) {
+                div = *rng.pick(&[1.0, 2.0, 3.0, 4.0, 6.0, 8.0]);
+            }
+        }
+        run_left -= 1;
+        let r = rng.below(24);
+        let kind = if r < 21 {
+            ObjKind::Circle
+        } else if r < 23 {
+            random_slider(rng, 256, 192, 2)
+        } else {
+            ObjKind::Spinner { end: t + *rng.pick(&[50.0, 400.0, 2000.0]) }
+        };
+        let sound = if rim { *rng.pick(&[2u8, 8, 10]) } else { *rng.pick(&[0u8, 4]) };
+        m.objects.push(ObjSpec { x: 256, y: 192, time: t, sound, kind });
+        let gap = match rng.below(40) {
+            0 => 0.0,
+            1 => *rng.pick(&[1.0, 2.0, 5.0]),
+            2 => *rng.pick(&[3000.0, 20000.0, 200000.0]),
+            _ => beat / div,
+        };
+        t += if frac { gap + 0.25 * rng.below(3) as f64 } else { gap };
+    }
+    m
+}
+
 /// A mania map with `keys` columns: chords, long holds overlapping several notes, releases close
 /// to other releases, dense and sparse stretches.
 fn mania_map(rng: &mut Rng, keys: u32, n: usize) -> MapSpec {
@@ -384,10 +619,52 @@ pub fn run(run: &mut Run, tier: &str, seed: u64, only: Option<&str>) {
         };
         cases.push((format!("ck-{i}"), 2, spec.render(), settings));
     }
+    // --- taiko: colour patterns exhaustively, random maps
+    let max_len = if thorough { 10 } else { 6 };
+    for len in 1..=max_len {
+        for pattern in 0..(1u32 << len) {
+            for timing in 0..4u32 {
+                if !thorough && timing >= 2 && pattern % 3 != 0 {
+                    continue;
+                }
+                let settings = match (pattern + timing) % 7 {
+                    0 => Settings { mods: ModsSpec::Bits(16), ..Settings::default() },
+                    1 => Settings { mods: ModsSpec::Bits(64), ..Settings::default() },
+                    2 => Settings { mods: ModsSpec::Bits(2), ..Settings::default() },
+                    _ => Settings::default(),
+                };
+                cases.push((format!("tp-{len}-{pattern}-{timing}"), 1, taiko_pattern_map(pattern, len, timing).render(), settings));
+            }
+        }
+    }
+    // the Lean counter-witness `C16d.color_eval_nonneg_fails` on the real code: alternating 100 / 300 ms
+    // gaps give a consistent rhythm ratio of 3, for which `consistent_ratio_penalty` is -0.2
+    {
+        let mut m = MapSpec { mode: 1, ..Default::default() };
+        let mut t = 1000.0;
+        for i in 0..14 {
+            m.objects.push(ObjSpec { x: 256, y: 192, time: t, sound: if i % 3 == 0 { 8 } else { 0 }, kind: ObjKind::Circle });
+            t += if i % 2 == 0 { 100.0 } else { 300.0 };
+        }
+        cases.push(("tk-negative-color-witness".to_owned(), 1, m.render(), Settings::default()));
+    }
+    let n_taiko = if thorough { 1500 } else { 150 };
+    for i in 0..n_taiko {
+        let n = *rng.pick(&[0usize, 1, 2, 3, 4, 8, 16, 40, 90]);
+        let spec = taiko_map(&mut rng, n);
+        let settings = match i % 6 {
+            0 => Settings::default(),
+            1 => Settings { mods: ModsSpec::Bits(*rng.pick(&[16, 2, 16 + 64, 2 + 256, 128])), ..Settings::default() },
+            2 => Settings { clock_rate: Some(*rng.pick(&[0.5, 0.75, 1.25, 1.5, 2.0, 1.17])), ..Settings::default() },
+            3 => Settings { od: Some((*rng.pick(&[0.0, 4.0, 8.0, 10.0, 11.0]), rng.chance(1, 2))), ..Settings::default() },
+            _ => random_settings(&mut rng, 1),
+        };
+        cases.push((format!("tk-{i}"), 1, spec.render(), settings));
+    }
     // --- osu! maps converted to both modes, generic random maps
     let n_conv = if thorough { 1500 } else { 120 };
     for i in 0..n_conv {
-        let target = if i % 2 == 0 { 2u8 } else { 3u8 };
+        let target = [2u8, 3, 1][i % 3];
         let native = rng.chance(1, 3);
         let mut cfg = GenCfg::small(if native { target } else { 0 });
         cfg.max_objects = *rng.pick(&[3, 8, 20, 50]);
@@ -396,11 +673,11 @@ pub fn run(run: &mut Run, tier: &str, seed: u64, only: Option<&str>) {
         cfg.dense = rng.chance(1, 6);
         let spec = random_map(&mut rng, &cfg);
         let settings = if rng.chance(1, 3) { Settings::default() } else { random_settings(&mut rng, target) };
-        cases.push((format!("rnd-{i}-{}{}", if target == 2 { "catch" } else { "mania" }, if native { "" } else { "-conv" }), target, spec.render(), settings));
+        cases.push((format!("rnd-{i}-{}{}", ["", "taiko", "catch", "mania"][target as usize], if native { "" } else { "-conv" }), target, spec.render(), settings));
     }
     // --- resource maps (native and osu! converted), truncated and full
     for (mode, text) in resource_maps() {
-        for target in [2u8, 3u8] {
+        for target in [1u8, 2u8, 3u8] {
             if mode != target && mode != 0 {
                 continue;
             }
@@ -455,6 +732,8 @@ pub fn run(run: &mut Run, tier: &str, seed: u64, only: Option<&str>) {
             };
             if mode == 3 {
                 check_mania(run, &cid, &map, &settings, p, &rp);
+            } else if mode == 1 {
+                check_taiko(run, &cid, &map, &settings, p, &rp);
             } else {
                 check_catch(run, &cid, &map, &settings, p, &rp);
             }
